@@ -627,7 +627,7 @@ inline Line genValidLine(const Config &c, const Profile &pf, int maxUses = 6) {
     if (isFixed(kind)) { budget = std::min(budget, 3); if (kind == K_TUPLE_ISI) { budget = 3; minTotal = 3; } }
     if (budget < 1) budget = 1;
     int total = *range<int>(std::min(minTotal, budget), std::min(budget, std::max(minTotal, 6)));
-    if (!isFixed(kind) && budget >= 14 && pick(6)) total = *range<int>(9, 14);   // now and then a long list (10th, 11th ... value of a destination)
+    if (!isFixed(kind) && budget >= 10 && pick(6)) total = *range<int>(9, std::min(budget, 14));   // now and then a long list (10th, 11th ... value of a destination)
     if (a.optionalValue && pick(35)) { u.hasValue = false; line.push_back(u); continue; }
     int salt = disjointSalt.count(ai) ? disjointSalt[ai] : -1;
     std::vector<std::string> all = genElems(a, kind, total, total, salt);
